@@ -549,7 +549,13 @@ impl SocketTable {
             );
             match &s.listen {
                 Some(l) => {
-                    let _ = write!(out, "listen(b={} ready={:?} aw={}) ", l.backlog, l.ready, l.accept_wakers.len());
+                    let _ = write!(
+                        out,
+                        "listen(b={} ready={:?} aw={}) ",
+                        l.backlog,
+                        l.ready,
+                        l.accept_wakers.len()
+                    );
                 }
                 None => out.push_str("listen- "),
             }
